@@ -24,4 +24,22 @@ CHECKS["C12"] = {
     "text": "C12: handed-over => not expired, withheld => expired and retrievable from the dead category, for all instants.",
     "note": "in-memory consumer in this entry; Redis/RabbitMQ consumers use fake servers (see evidence); expiry evaluated at the consumer's look-up instant",
 }
+CHECKS["C02"] = {
+    "engine": "symx+vloop",
+    "technique": "symbolic execution (z3) of the report_to_broker ladder from an arbitrary retry state and of a full Worker.run() over a behaviour selector (return/raise/timeout with symbolic duration/conversion failure/dependency failure/eager responses x extras) with symbolic retry counters",
+    "text": "C02: the per-delivery broker actions recorded at the broker boundary are compared with the single action the statement prescribes, for all retry states and both converters.",
+    "note": "in-memory brokers on a virtual-time loop; thread pools run inline (zero virtual time); behaviours are a finite selector enumerated by the solver; BaseExceptions other than the eager-response signal, failures inside broker calls and cron are outside the claim",
+}
+CHECKS["C09"] = {
+    "engine": "symx+vloop",
+    "technique": "symbolic execution of Worker.run() on a virtual-time asyncio loop whose actor durations are symbolic reals: every z3-decided ordering class of timer events is explored; tasks_limit symbolic",
+    "text": "C09: a monitor inside the actor body asserts running <= tasks_limit at every entry; completion, makespan and pause/unpause pairing are asserted per ordering class.",
+    "note": "in-memory consumer (1 ms polling executed concretely); 2-3 jobs, 1-2 queues, durations in (0, 3 ms]; RabbitMQ prefetch and real thread pools are outside the claim",
+}
+CHECKS["C10"] = {
+    "engine": "symx+vloop",
+    "technique": "symbolic execution of Worker.run() on a virtual-time loop with symbolic real durations and symbolic tasks_limit; messages_limit and backlog enumerated by the solver",
+    "text": "C10: actor starts <= M, run() returns, the other messages are still waiting with unchanged parameters; plus the run-on-enqueue plugin with M=1.",
+    "note": "in-memory broker; M in [1,2(3)], backlog M+1..M+2, 1-2 queues, durations zero or (0, 3 ms]",
+}
 NOT_APPLICABLE = {}
